@@ -572,6 +572,22 @@ func directed() [][]string {
 	}
 }
 
+// scripted scenarios on the real ticker: StopHunt -> restore at the next tick -> silence; the shared-IP
+// defect (K2); Close in the middle of a hunt
+func directedTimed() [][]string {
+	m1, m2 := macs[0], macs[1]
+	who := func(m, sip string) string { return "R,1," + m + "," + m + "," + sip + ",000000000000," + ipRouter }
+	return [][]string{
+		{"@0", "S," + m1 + "," + ipA, "W,0,0", "@1000", "S," + m2 + "," + ipB, "W,1,0", "@3800", "T," + m1, "@4000", who(m1, ipA),
+			"@5850", "W,0,0", "@6850", "W,1,0", "@9800", "C", "W,0,0", "W,1,0", "@10000", who(m2, ipB),
+			"@11850", "W,0,0", "@12850", "W,1,0"},
+		{"@0", "S," + m1 + "," + ipA, "W,0,0", "@500", "S," + m2 + "," + ipA, "W,1,0", "@3800", "T," + m1, "@4000", who(m1, ipA),
+			"@5850", "W,0,0", "@6350", "W,1,0", "@9800", "T," + m2, "@11850", "W,0,0", "@12350", "W,1,0"},
+		{"@0", "S," + m1 + "," + ipA, "W,0,0", "@3800", "T," + m1, "@4000", "S," + m1 + "," + ipA, "W,1,0",
+			"@5850", "W,0,0", "@9800", "T," + m1, "@9850", "W,1,0", "@11850", "W,0,0", "@12000", "W,1,0"},
+	}
+}
+
 func fixHints(toks []string) []string {
 	out := make([]string, len(toks))
 	for i, t := range toks {
@@ -630,6 +646,15 @@ func main() {
 		}(script)
 	}
 
+	for _, d := range directedTimed() {
+		script := append([]string{std}, fixHints(d)...)
+		wg.Add(1)
+		go func(script []string) {
+			defer wg.Done()
+			runCase(r, script, 3)
+			r.Stat("class.timed-directed", 1)
+		}(script)
+	}
 	for _, d := range directed() {
 		runCase(r, append([]string{std}, fixHints(d)...), 1)
 		r.Stat("class.directed", 1)
